@@ -127,6 +127,7 @@ package vaa
 //@   ensures  [exact-sigs] err == nil ==> (forall i in 0..len(ret.Signatures) :: data[6+66*i] == ret.Signatures[i].Index && (forall j in 0..65 :: data[7+66*i+j] == ret.Signatures[i].Signature[j]))
 //@   ensures  [exact-body] err == nil ==> (forall k in 0..53+len(ret.Payload) :: data[6+66*len(ret.Signatures)+k] == bodyOf(ret)[k])
 //@   ensures  [accept-exact] err == nil ==> encodes(data, ret)
+//@   ensures  [timestamp-at] err == nil ==> unix(ret.Timestamp) == be32at(data, 6 + 66*data[5])
 //@   ensures  [id-fields-at] err == nil ==> ret.Sequence == seqOf(data) && ret.EmitterChain == be16at(data, 6 + 66*data[5] + 8) && ret.TargetChain == be16at(data, 6 + 66*data[5] + 10)
 //@   ensures  [whole-seconds] err == nil ==> nsec(ret.Timestamp) == 0 && 0 <= unix(ret.Timestamp) && unix(ret.Timestamp) < 4294967296
 //@   modifies fresh VAA.*, fresh Signature.*, fresh lib:bytes.Reader.s, fresh lib:bytes.Reader.i
